@@ -201,7 +201,9 @@ void rewrite_loop_in_place(Chunk *keyword, E_Token desired_type, const char *des
 
 static Chunk *find_start_brace(Chunk *pc)
 {
-   while (!pc->IsBraceOpen())
+   // the end of the list is reached if the loop has no body (yet): "do" last in a file or in a #define
+   while (  pc->IsNotNullChunk()
+         && !pc->IsBraceOpen())
    {
       pc = pc->GetNextNcNnl();
    }
@@ -298,7 +300,12 @@ void rewrite_infinite_loops()
                  && for_needs_rewrite(pc, desired_type)))
       {
          Chunk *start_brace = find_start_brace(pc);
-         Chunk *end_brace   = start_brace->GetClosingParen();
+
+         if (start_brace->IsNullChunk())
+         {
+            continue;
+         }
+         Chunk *end_brace = start_brace->GetClosingParen();
 
          if (desired_type == CT_WHILE_OF_DO)
          {
